@@ -134,6 +134,11 @@ ROW_CASES = {
     "CallFunction||recurse_loop|true": ["row_fn_loop_recurse__"],
     "CallFunction||ctx_ok|func.call": ["row_fn_fails__", "row_fn_not_callable__"],
     "CallFunction||bail|Error::new#3": ["row_fn_unknown__"],
+    "ApplyFilter||ctx_ok|*": ["row_filter_unknown__", "row_filter_fails__"],
+    "PerformTest||ctx_ok|*": ["row_test_unknown__", "row_test_fails__"],
+    "CallFunction||ctx_ok|*": ["row_fn_fails__", "row_fn_not_callable__", "row_super_call_no_parent"],
+    "CallMethod||ctx_ok|*": ["row_method_unknown__"],
+    "CallObject||ctx_ok|*": ["row_callobject__"],
     "CallMethod||ctx_ok|args[0].call_method": ["row_method_unknown__"],
     "CallObject||ctx_ok|args[0].call": ["row_callobject__"],
     "FastSuper||ctx_ok|*": ["super_no_parent", "super_err"],
@@ -200,9 +205,9 @@ def parse_err_record(res):
     head, how_body = res.split("|", 1)
     how, rest = how_body.split("|", 1)
     body, specs = rest.rsplit("|", 1)
-    pv, ph, vline, n, vbytes, hbytes, shifted, mline, mext, free = head[1:].split(",")
+    pv, ph, vline, n, vbytes, hbytes, shifted, mline, mext, free, pe = head[1:].split(",")
     d = {"pv": int(pv), "ph": int(ph), "vline": int(vline), "n": int(n), "vbytes": int(vbytes), "hbytes": int(hbytes),
-         "shifted": unhexs(shifted), "mline": int(mline), "mext": int(mext), "free": free == "1",
+         "shifted": unhexs(shifted), "mline": int(mline), "mext": int(mext), "free": free == "1", "pe": int(pe),
          "how": how, "errors": [], "specs": {}, "panic": None}
     if how == "panic":
         d["panic"] = unhexs(body)
@@ -331,6 +336,7 @@ def evaluate(r, text, tables=None):
     failing_ids = do_err(r, q, pending, err_recs, classes)
     check_spanless_table(r, tables, failing_ids)
     check_vm_rows(r, tables, failing_ids, err_recs)
+    check_inner_layout(r, failing_ids)
     if not q.run(r):
         return
     for fn in pending:
@@ -365,9 +371,29 @@ def check_error_static(r, case, e, depth, rec, in_quantifier):
             r.oracle_failure(case, f"error #{depth}: range {e.rs}..{e.re} not on char boundaries (start ok={e.sb}, end ok={e.eb}): {e.brief()}", "range-not-char-boundary:" + where)
 
 
+def inner_zone(rec):
+    """inner cases (white space inserted inside a tag): where the insertion is relative to the failing operation"""
+    if rec["pe"] < 0:
+        return None
+    if rec["pv"] <= rec["ph"]:
+        return "before"
+    if rec["pv"] >= rec["pe"]:
+        return "after"
+    return "inside"
+
+
 def expected_shift(b, rec, vi):
     """what the baseline error `b` must look like in the shifted template"""
     pv, ph, n, vb, hb = rec["pv"], rec["ph"], rec["n"], rec["vbytes"], rec["hbytes"]
+    zone = inner_zone(rec)
+    if zone in ("before", "after"):
+        # line by the position of the insertion relative to the failing operation; the range (when the error
+        # carries one: `CodeGenerator::add` drops it as soon as the span starts on another line than the
+        # instruction) by the generic offset rule
+        line = None if b.line is None else b.line + (n if zone == "before" else 0)
+        if b.rs is None:
+            return line, None, None
+        return line, b.rs + (vb if b.rs >= pv else 0), b.re + (vb if b.re > pv else 0)
     if b.rs is not None:
         rs = b.rs + (vb if b.rs >= pv else 0) + (hb if b.rs >= ph else 0)
         re_ = b.re + (vb if b.re > pv else 0) + (hb if b.re > ph else 0)
@@ -406,11 +432,11 @@ def do_err(r, q, pending, err_recs, classes):
         if cid.startswith("print_") and cfg in ("p", "n", "a"):
             print_fail[cfg] += 1
         for (vi, hi), (case, rec) in variants.items():
-            in_q = vi != 6
+            in_q = vi != 6 or rec["pe"] >= 0
             r.count(case, True)
             r.hist["err_class"][cls] += 1
             r.hist["err_config"][CFG_NAMES.get(cfg, cfg)] += 1
-            r.hist["v_shift"][str(V_N[vi]) if V_N[vi] is not None else "to 65535 lines"] += 1
+            r.hist["v_shift"][("inner: %d line breaks" % rec["n"]) if rec["pe"] >= 0 else (str(V_N[vi]) if V_N[vi] is not None else "to 65535 lines")] += 1
             r.hist["h_shift"][["0", "1 col", "3 cols multi-byte", "65540 cols"][hi]] += 1
             if rec["panic"] is not None:
                 r.oracle_failure(case, "loading/rendering panics: " + rec["panic"], panic_site(rec["panic"]))
@@ -424,8 +450,13 @@ def do_err(r, q, pending, err_recs, classes):
                 check_error_static(r, case, e, d, rec, in_q)
             # --- the right line: some error of the chain points into the marked failing construct
             if cls != "planted" and not rec["free"] and in_q and (cfg != "r" or cid.startswith("sl_")) and cid not in UNANCHORED:
-                lo = rec["mline"] + rec["n"]
-                hi_ = lo + rec["mext"]
+                zone = inner_zone(rec)
+                if zone is None:
+                    lo = rec["mline"] + rec["n"]
+                    hi_ = lo + rec["mext"]
+                else:
+                    lo = rec["mline"] + (rec["n"] if zone == "before" else 0)
+                    hi_ = rec["mline"] + rec["mext"] + (rec["n"] if zone != "after" else 0)
                 mine = [e for e in rec["errors"] if e.name == rec["shifted"] and e.line is not None]
                 if mine and not any(lo <= e.line <= hi_ for e in mine):
                     r.oracle_failure(case, f"no error of the chain points at the failing construct on line(s) {lo}..{hi_}: "
@@ -442,8 +473,15 @@ def do_err(r, q, pending, err_recs, classes):
                     if (b.name, b.kind, b.detail) != (s.name, s.kind, s.detail):
                         r.oracle_failure(case, f"shift changes error #{d}: {b.brief()} -> {s.brief()}", f"shift-changes-error:{b.kind}")
                         continue
+                    if b.name == rec["shifted"] and inner_zone(rec) == "inside":
+                        # white space inside the failing operation: a different template as far as this
+                        # operation is concerned; the right-line check above bounds the line
+                        r.hist["inner_zone"]["inside"] += 1
+                        continue
                     if b.name == rec["shifted"]:
                         line, rs, re_ = expected_shift(b, rec, vi)
+                        if inner_zone(rec):
+                            r.hist["inner_zone"][inner_zone(rec)] += 1
                     else:
                         line, rs, re_ = b.line, b.rs, b.re
                     if in_q and s.line != line:
@@ -451,6 +489,9 @@ def do_err(r, q, pending, err_recs, classes):
                                          f"line-shift:{b.kind}:{(b.detail or '')[:40]}")
                     if not in_q and (b.rs is None) != (s.rs is None):
                         continue   # beyond 65535 lines saturated lines coincide: a line-only error may gain a span
+                    if rec["pe"] >= 0 and (b.rs is None) != (s.rs is None):
+                        r.hist["inner_zone"]["range present only on one side"] += 1
+                        continue   # white space inside the tag: the span may start on another line than the instruction
                     if (s.rs, s.re) != (rs, re_):
                         r.oracle_failure(case, f"error #{d}: range {b.rs}..{b.re} unshifted, {s.rs}..{s.re} shifted (expected {rs}..{re_}; "
                                          f"v insert {rec['vbytes']}B at {rec['pv']}, h insert {rec['hbytes']}B at {rec['ph']})",
@@ -517,6 +558,27 @@ def check_vm_rows(r, tables, failing_ids, err_recs):
         inner = base[1]["errors"][-1]
         if want not in (inner.detail or ""):
             r.broken.append(f"row site {cid} fails with {inner.kind} {inner.detail!r}, not with the intended `{want}`")
+
+
+# instructions that are added with the current line only (plain `add` at statement level / fast paths):
+# each needs failing cases in the "line break after the opening delimiter" layout (inner cases, slot 0)
+INNER_REQUIRED = {
+    "CallBlock": ["inn_self_block_unknown_0", "inn_self_block_required_0", "inn_block_required_0"],
+    "FastSuper": ["inn_super_fast_0"], "FastRecurse": ["inn_loop_fast_0"],
+    "Include": ["inn_include_nonstring_0", "inn_import_nonstring_0", "inn_from_import_missing_0"],
+    "LoadBlocks": ["inn_extends_nonstring_0", "inn_extends_missing_0"],
+    "PushAutoEscape": ["inn_autoescape_0"], "PushLoop": ["inn_for_noniterable_0"], "UnpackList": ["inn_set_unpack_0"],
+    "JumpIfFalse": ["inn_if_strict_0"], "CallFunction": ["inn_call_0", "inn_super_in_expr_0", "inn_loop_in_expr_0"],
+    "ApplyFilter": ["inn_filter_0", "inn_filter_block_0"], "PerformTest": ["inn_test_0"], "CallMethod": ["inn_method_0"],
+    "Add": ["inn_add_0", "inn_with_expr_0"], "In": ["inn_in_0"], "CompareAndPreserve": ["inn_compare_chain_0"],
+}
+
+
+def check_inner_layout(r, failing_ids):
+    missing = [(k, c) for k, cs in INNER_REQUIRED.items() for c in cs if c not in failing_ids]
+    for k, c in missing:
+        r.broken.append(f"no failing case in the line-break-after-the-opening-delimiter layout for Instruction::{k} ({c})")
+    r.extra["inner_layout_sites"] = {k: len(v) for k, v in INNER_REQUIRED.items()}
 
 
 def check_spanless_table(r, tables, failing_ids):
